@@ -1420,4 +1420,39 @@ theorem DelimsOk.transport {m m' : Mem} {fuel lo hi x : Nat} (ho : SameOutside m
   | _ :: _, [], h => h.elim
 
 
+/-! ### round 3: first differences (totality theorems) -/
+
+/-- two lists of the same length are equal or have a first differing pair -/
+theorem first_diff : ∀ (l1 l2 : List Byte), l1.length = l2.length →
+    l1 = l2 ∨ ∃ p x y r1 r2, l1 = p ++ x :: r1 ∧ l2 = p ++ y :: r2 ∧ x ≠ y
+  | [], [], _ => Or.inl rfl
+  | [], _ :: _, h => by simp at h
+  | _ :: _, [], h => by simp at h
+  | a :: l1, b :: l2, h => by
+    by_cases hab : a = b
+    · subst hab
+      rcases first_diff l1 l2 (by simpa using h) with e | ⟨p, x, y, r1, r2, e1, e2, hxy⟩
+      · exact Or.inl (by rw [e])
+      · exact Or.inr ⟨a :: p, x, y, r1, r2, by simp [e1], by simp [e2], hxy⟩
+    · exact Or.inr ⟨[], a, b, l1, l2, rfl, rfl, hab⟩
+
+/-- two C strings are equal or differ first at some position; the differing "characters" may be a terminator -/
+theorem first_diff_cstr : ∀ (l1 l2 : List Byte), 0#8 ∉ l1 → 0#8 ∉ l2 →
+    l1 = l2 ∨ ∃ p x y r1 r2, l1 ++ [0#8] = p ++ x :: r1 ∧ l2 ++ [0#8] = p ++ y :: r2 ∧ x ≠ y ∧ 0#8 ∉ p
+  | [], [], _, _ => Or.inl rfl
+  | [], b :: l2, _, h2 => Or.inr ⟨[], 0#8, b, [], l2 ++ [0#8], rfl, rfl, fun e => h2 (by simp [e]), by simp⟩
+  | a :: l1, [], h1, _ => Or.inr ⟨[], a, 0#8, l1 ++ [0#8], [], rfl, rfl, fun e => h1 (by simp [e]), by simp⟩
+  | a :: l1, b :: l2, h1, h2 => by
+    by_cases hab : a = b
+    · subst hab
+      rcases first_diff_cstr l1 l2 (fun e => h1 (by simp [e])) (fun e => h2 (by simp [e])) with e | ⟨p, x, y, r1, r2, e1, e2, hxy, hp⟩
+      · exact Or.inl (by rw [e])
+      · refine Or.inr ⟨a :: p, x, y, r1, r2, by simp [e1], by simp [e2], hxy, ?_⟩
+        intro hm; simp only [List.mem_cons] at hm
+        rcases hm with hm | hm
+        · exact h1 (by simp [hm])
+        · exact hp hm
+    · exact Or.inr ⟨[], a, b, l1 ++ [0#8], l2 ++ [0#8], rfl, rfl, hab, by simp⟩
+
+
 end Igris.C08
